@@ -218,8 +218,18 @@ void Value::do_sub() {
     if (!get_arith_uint256(Value(args[0]), a)) return;
     if (!get_arith_uint256(Value(args[1]), b)) return;
     if (args.size() == 3 && !get_arith_uint256(Value(args[2]), g)) return;
-    b = -b;
-    add(data, a, b, g);
+    if (g.EqualTo(0)) {
+        // no group: a - b modulo 2^256
+        b = -b;
+        add(data, a, b, g);
+        return;
+    }
+    // a - b modulo g (for a, b < g): adding the two's complement of b and then reducing by g is wrong whenever a >= b
+    arith_uint256 c = a >= b ? a - b : g - (b - a);
+    if (c >= g) c -= g;
+    uint256 r = ArithToUint256(c);
+    data.resize(32);
+    memcpy(data.data(), r.begin(), 32);
 }
 
 void Value::do_boolify() {
